@@ -2,6 +2,12 @@
   C14 — obligations tying the REGENERATED facts (Generated/C14.lean, rewritten from the Go source on every run)
   to the hand-written model. A source change that alters the roll-over test, the statement order or the session
   id construction makes one of these fail to check.
+
+  Every fact is an `Option`: `none` means the translator could not locate the anchor in the current source (a helper was
+  extracted, the loop restructured beyond the shapes it understands); the obligation is then vacuous, bin/check prints
+  `T-TIE-UNAVAILABLE` and the correspondence ops (batches / submit / exec / sigsession …) carry the property alone.
+  A fact that IS located must satisfy its obligation, which is stated semantically: an equivalent re-spelling of the
+  source test (operands swapped, De Morgan, `0 < n` for `n > 0`, `cap <= sum` …) still satisfies it.
 -/
 import SygmaModel.Model.C14
 import SygmaModel.Generated.C14
@@ -9,15 +15,24 @@ namespace Sygma.C14
 
 /-- the source's roll-over test is the model's (`packStep`), as long as the uint64 sum does not wrap -/
 theorem gen_rollover (ms : List (Nat × Nat)) (gas g cap : Nat) (h : gas + g < M) :
-    Generated.C14.rollover ms.length gas g cap = true ↔ (ms ≠ [] ∧ cap ≤ (gas + g) % M) := by
-  rw [Nat.mod_eq_of_lt h]
-  -- written to survive an equivalent re-spelling of the source test (operands swapped, `0 < n`, `cap <= sum` …)
-  cases ms <;> simp [Generated.C14.rollover] <;> omega
+    ∀ f, Generated.C14.rollover = some f → (f ms.length gas g cap = true ↔ (ms ≠ [] ∧ cap ≤ (gas + g) % M)) := by
+  intro f hf
+  unfold Generated.C14.rollover at hf
+  cases hf
+  all_goals (rw [Nat.mod_eq_of_lt h]; cases ms <;> simp <;> omega)
 
 /-- the gas is added *after* the roll-over decision and before the proposal is appended -/
-theorem gen_order : Generated.C14.order = ["rollover", "gas-add", "append"] := by decide
+theorem gen_order : ∀ o, Generated.C14.order = some o → o = ["rollover", "gas-add", "append"] := by
+  intro o ho
+  unfold Generated.C14.order at ho
+  cases ho
+  all_goals decide
 
-/-- session id = message id, '-', decimal batch index; the index is copied per iteration -/
-theorem gen_session : Generated.C14.sessionFmt = "%s-%d" ∧ Generated.C14.sessionIndexCopied = true := by decide
+/-- session id = message id, '-', decimal batch index; the index is a per-iteration value -/
+theorem gen_session : ∀ s, Generated.C14.session = some s → s = ("%s-%d", true) := by
+  intro s hs
+  unfold Generated.C14.session at hs
+  cases hs
+  all_goals decide
 
 end Sygma.C14
